@@ -96,11 +96,12 @@ def validSeq (G : Grammar) (A : Automaton) (w : List Nat) (N : Nat) (c : Pos) (r
     let (n, acc, _) := continueFrom G A w (w.length + 2) c' 0
     acc || n ≥ N
 
-/-- how far a plain parse gets after the sequence (ranking criterion) -/
-def distance (G : Grammar) (A : Automaton) (w : List Nat) (c : Pos) (rs : List Repair) : Nat :=
+/-- how far a plain parse gets after the sequence (ranking criterion); the recoverer looks at most
+`win` lexemes (`TRY_PARSE_AT_MOST`) beyond the error, so everything that gets that far ties -/
+def distance (G : Grammar) (A : Automaton) (w : List Nat) (win : Nat) (c : Pos) (rs : List Repair) : Nat :=
   match applySeq G A w c rs with
   | none => 0
-  | some c' => (continueFrom G A w (w.length + 2) c' 0).2.2
+  | some c' => min (continueFrom G A w (w.length + 2) c' 0).2.2 (c.pos + win)
 
 def seqCost (w : List Nat) (cost : Nat → Nat) : Nat → List Repair → Nat
   | _, [] => 0
@@ -190,13 +191,13 @@ def minCostRepairs (G : Grammar) (A : Automaton) (w : List Nat) (cost : Nat → 
 
 /-- the reference answer: minimum-cost repairs that let parsing continue furthest, trailing
 shifts stripped, duplicates removed -/
-def refRepairs (G : Grammar) (A : Automaton) (w : List Nat) (cost : Nat → Nat) (N : Nat) (start : Pos)
+def refRepairs (G : Grammar) (A : Automaton) (w : List Nat) (cost : Nat → Nat) (N win : Nat) (start : Pos)
     (cap : Nat) : Option (Nat × List (List Repair)) :=
   match minCostRepairs G A w cost N start cap with
   | none => none
   | some (c, rs) =>
-    let far := (rs.map (distance G A w start)).foldl max 0
-    some (c, dedup ((rs.filter (fun r => distance G A w start r == far)).map stripShifts))
+    let far := (rs.map (distance G A w win start)).foldl max 0
+    some (c, dedup ((rs.filter (fun r => distance G A w win start r == far)).map stripShifts))
 
 end GrmVerif.Rec
 
